@@ -55,6 +55,10 @@ pub mod h_io {
 pub mod h_err {
     include!(concat!(env!("CHUMSKY_VERIF_DIR"), "/h_err.rs"));
 }
+#[cfg(feature = "memoization")]
+pub mod h_memo {
+    include!(concat!(env!("CHUMSKY_VERIF_DIR"), "/h_memo.rs"));
+}
 pub fn register_all(r: &mut Vec<(&'static str, fn())>) {
     h_comb::register(r);
     h_prim::register(r);
@@ -75,4 +79,6 @@ pub fn register_all(r: &mut Vec<(&'static str, fn())>) {
     h_io::register(r);
     h_clone::register(r);
     h_iter2::register(r);
+    #[cfg(feature = "memoization")]
+    h_memo::register(r);
 }
